@@ -239,6 +239,8 @@ type vSched struct {
 	mu      sync.Mutex
 	gids    map[int64]int // goroutine id of a request -> request
 	async   int           // storage operations that came from goroutines a handler left behind (not scheduled)
+	lateFor time.Duration // work a handler left behind reaches the store this much later (its write transaction begins late)
+	pending int           // such work that is still on its way
 	current int
 	held    map[int]chan struct{}
 	events  chan vSchedEv
@@ -303,7 +305,19 @@ func (s *vSched) arrive(db, op string) {
 		id = rid
 	} else if len(s.gids) > 0 {
 		s.async++
+		late := time.Duration(0)
+		if op == "begin" {
+			late = s.lateFor
+			s.pending++
+		}
 		s.mu.Unlock()
+		if op == "begin" {
+			// nobody waits for it: it may well land after requests that arrived later have been answered
+			time.Sleep(late)
+			s.mu.Lock()
+			s.pending--
+			s.mu.Unlock()
+		}
 		return
 	}
 	ch := make(chan struct{})
